@@ -532,6 +532,20 @@ func forcedCases(r *hx.Rng, tier string) []Case {
 		}
 	}
 
+	// Message registry: a delivery parked between two of its sends (or before the first), an Unregister/Register
+	// of another or the same channel meanwhile; at least two channels registered
+	mpres := [][]Op{{{Kind: "mreg", U: 1}, {Kind: "mreg", U: 2}, {Kind: "mreg", U: 3}}, {{Kind: "mreg", U: 2}, {Kind: "mreg", U: 1}}}
+	mbs := []Op{{Kind: "munreg", U: 1}, {Kind: "munreg", U: 2}, {Kind: "munreg", U: 3}, {Kind: "mreg", U: 4}, {Kind: "deliver"}}
+
+	for _, p := range mpres {
+		for bi := range mbs {
+			for park := 0; park < 3; park++ {
+				a, b := Op{Kind: "deliver"}, mbs[bi]
+				cs = append(cs, Case{Comp: "msg", Mode: "forced", Pre: p, A: &a, B: &b, Park: park, Post: []Op{{Kind: "deliver"}}})
+			}
+		}
+	}
+
 	return cs
 }
 
@@ -573,6 +587,7 @@ func stressCases(r *hx.Rng, tier string) []Case {
 	add("kms", Stack{}, 50)
 	add("sess", Stack{}, 120)
 	add("reg", Stack{}, 120)
+	add("msg", Stack{}, 120)
 	add("inbox", Stack{}, 100)
 	add("pool", Stack{}, 20)
 
